@@ -238,6 +238,7 @@ def neg(op, input, *args, **kwargs):
 @register_qbytestensor_op(
     [
         torch.ops.aten.alias,
+        torch.ops.aten.as_strided,
         torch.ops.aten.diagonal,
         torch.ops.aten.expand,
         torch.ops.aten.permute,
